@@ -14,8 +14,11 @@ when `foldName` of the key equals that of the field name, the last such member w
 clears a pointer / slice, a value of the wrong JSON type is an `UnmarshalTypeError`),
 `protoreflect.FullName.IsValid`, `base64.RawStdEncoding.DecodeString` (CR and LF are skipped;
 the rest is `Base64.decodeRaw` of C18).  Not modelled: `encoding/json` syntax (a document that
-does not tokenize never reaches this model) and the protojson comparison of a detail's
-`debug` member with its `value` (`examineConnectErrorDetailDebugData`), which is an oracle `dbg`.
+does not tokenize never reaches this model) and the protobuf libraries behind the comparison of a
+detail's `debug` member with its `value` (`examineConnectErrorDetailDebugData`): the examiners are
+parametrised by an oracle `dbg` for that comparison; `debugDataFb` is the model of the function
+itself, with the outcome of each library call (`DebugSteps`) as its input - which call follows
+which, and which type name a type URL stands for, is decided here.
 -/
 import ConfModel.Model.WireChecks
 import ConfModel.Model.Base64
@@ -81,6 +84,51 @@ inductive CFb
 /-- what the protojson comparison says about the `debug` member of detail `i`, given the type
 name and the decoded value it is called with -/
 abbrev DebugOracle := Nat → Bytes → Bytes → Option DebugFb
+
+/-! ### `examineConnectErrorDetailDebugData` -/
+
+/-- the outcome of every library call `examineConnectErrorDetailDebugData` can make on
+`(msgName, data, debugJSON)`; the harness computes each on its own with the real libraries -/
+structure DebugSteps where
+  /-- `protoregistry.GlobalTypes.FindMessageByName(msgName)` succeeds -/
+  resolved : Bool
+  /-- `proto.Unmarshal(data, msgFromValue)` succeeds -/
+  valueOK : Bool
+  /-- `protojson.Unmarshal(debugJSON, msgFromDebug)` (into the detail's type) succeeds -/
+  directOK : Bool
+  /-- … and that message equals the one of the value -/
+  eqDirect : Bool
+  /-- `protojson.Unmarshal(debugJSON, &anyMsg)` (into a `google.protobuf.Any`) succeeds: `anyMsg.TypeUrl` -/
+  anyUrl : Option Bytes
+  /-- `anyMsg.UnmarshalNew()` succeeds -/
+  newOK : Bool
+  /-- … and that message equals the one of the value -/
+  eqAny : Bool
+  deriving Repr
+
+/-- `TypeUrl[strings.LastIndexByte(TypeUrl, '/')+1:]`: what follows the last slash; the whole
+URL when it has none -/
+def typeNameOfUrl (url : Bytes) : Bytes := (url.reverse.takeWhile (fun c => c != 47)).reverse
+
+/-- `examineConnectErrorDetailDebugData`: the one message it prints, if any -/
+def debugDataFb (msgName : Bytes) (s : DebugSteps) : Option DebugFb :=
+  if !s.resolved then some .unresolved
+  else if !s.valueOK then some .value
+  else if s.directOK then (if s.eqDirect then none else some .mismatch)
+  else
+    -- the fallback: the debug data may be the message rendered as a google.protobuf.Any
+    match s.anyUrl with
+    | none => some .json
+    | some url =>
+      if typeNameOfUrl url != msgName then some .type
+      else if !s.newOK then some .json
+      else if s.eqAny then none else some .mismatch
+
+/-- the library outcomes for the comparison of detail `i`, by type name and decoded value -/
+abbrev StepsOracle := Nat → Bytes → Bytes → DebugSteps
+
+/-- the comparison oracle of the examiners, derived from the library outcomes -/
+def stepsOracle (st : StepsOracle) : DebugOracle := fun i t d => debugDataFb t (st i t d)
 
 /-! ### keys -/
 
